@@ -1,9 +1,11 @@
 #![allow(dead_code, unused_variables, unused_imports)]
 mod checks_c03;
+mod checks_c04;
 mod checks_c05;
 mod checks_c12;
 mod checks_e1;
 mod checks_http;
+mod crash;
 mod dump;
 mod e1;
 mod e2;
@@ -14,6 +16,7 @@ mod ops;
 mod prng;
 mod scratch;
 mod subject;
+mod vfs;
 mod wrap;
 
 use evidence::{CheckResult, Shard, ShardOut, Verdict};
@@ -49,6 +52,7 @@ fn engine_shard(id: &str, tier: &str, seed: u64, replay: Option<&serde_json::Val
     }
     match id {
         "C03" => checks_c03::shard_run("C03", tier, seed, replay, shard),
+        "C04" => checks_c04::shard_run(tier, seed, replay_case, shard),
         "C05" => checks_c05::shard_run(tier, seed, replay_case, shard),
         "C15" | "C20" => checks_http::shard_run_grammar(id, tier, seed, replay_case, shard),
         "C16" => checks_http::shard_run_c16(tier, seed, replay_case, shard),
@@ -77,6 +81,7 @@ fn engine_finalize(id: &str, tier: &str, seed: u64, out: ShardOut, is_replay: bo
     }
     match id {
         "C03" => checks_c03::finalize("C03", tier, seed, out, is_replay),
+        "C04" => checks_c04::finalize(out, is_replay),
         "C05" => checks_c05::finalize(out, is_replay),
         "C15" | "C20" => checks_http::finalize_grammar(id, tier, out, is_replay),
         "C16" => checks_http::finalize_c16(out, is_replay),
